@@ -27,6 +27,9 @@
 //!   of every compact value overwritten with the boundary values 0, 1,
 //!   2^(n-1)-1, 2^(n-1), 2^(n-1)+1, 2^n-1 of that width, all pairs and triples
 //!   within each (value, width, offset) group;
+//! * record headers (3 owners x 2 types x 2 classes x 2 TTLs x 2 RDLEN, built
+//!   and parsed with compressed/uncompressed owner), parsed records, NSEC3
+//!   owner hashes and salts (31 strings), signature times (8 values);
 //! * records: RDATA x 3 owners (a., A., b.a.) x 2 classes x 2 TTLs, flat and
 //!   parsed from a message;
 //! * per record type all ordered pairs of the rgen *quick* menu product
@@ -40,7 +43,7 @@ use domain::base::charstr::CharStr;
 use domain::base::cmp::CanonicalOrd;
 use domain::base::iana::{Class, Rtype};
 use domain::base::name::{
-    Chain, FlattenInto, Label, Name, OwnedLabel, ParsedName, RelativeName, ToName,
+    Chain, FlattenInto, Label, Name, OwnedLabel, ParsedName, RelativeName, ToLabelIter, ToName,
 };
 use domain::base::rdata::{ComposeRecordData, ParseAnyRecordData, ParseRecordData, UnknownRecordData};
 use domain::base::record::RecordHeader;
@@ -203,6 +206,12 @@ impl Env {
             println!("{}", s());
         }
     }
+}
+
+/// The provided methods of `CanonicalOrd` agree with `canonical_cmp`.
+fn canon_ops_ok<A: CanonicalOrd<B> + ?Sized, B: ?Sized>(a: &A, b: &B) -> bool {
+    let c = sgn(a.canonical_cmp(b));
+    a.canonical_lt(b) == (c < 0) && a.canonical_le(b) == (c <= 0) && a.canonical_gt(b) == (c > 0) && a.canonical_ge(b) == (c >= 0)
 }
 
 fn sgn(o: Ordering) -> i8 {
@@ -510,6 +519,18 @@ fn dom_labels(env: &Env, only: Option<&[usize]>) {
             let canon = labels[i].to_canonical();
             let mut cc = Vec::new();
             labels[i].compose_canonical(&mut cc).unwrap();
+            // OwnedLabel: make_canonical, Borrow<Label>, ToOwned, From<&Label>
+            let mut oc = owned[i].clone();
+            oc.make_canonical();
+            let borrowed: &Label = std::borrow::Borrow::borrow(&owned[i]);
+            let to_owned: OwnedLabel = labels[i].to_owned();
+            let from: OwnedLabel = labels[i].into();
+            let extras_ok = oc.as_slice() == canon.as_slice() && oc == owned[i] && hrec(&oc) == h && borrowed == labels[i] && hrec(borrowed) == h && to_owned == owned[i] && from == owned[i] && hrec(&to_owned) == h
+                && (!b.is_empty() || (Label::root() == labels[i] && hrec(Label::root()) == h))
+                && (b[..] != b"*"[..] || Label::wildcard() == labels[i]);
+            if !extras_ok {
+                cc.clear();
+            }
             (h, ho, canon.as_slice().to_vec(), cc)
         });
         env.stats.eval();
@@ -655,6 +676,7 @@ struct CsObs {
     can_vs: i8,
     can_sv: i8,
     can_uu: i8,
+    can_ops_ok: bool,
 }
 
 fn dom_charstrs(env: &Env, only: Option<&[usize]>) {
@@ -675,6 +697,19 @@ fn dom_charstrs(env: &Env, only: Option<&[usize]>) {
     for i in 0..n {
         let (v, s, u) = &reps[i];
         env.stats.eval();
+        let extra = guard(|| {
+            let cb = CharStr::from_octets(bytes::Bytes::copy_from_slice(&items[i].1)).ok()?;
+            Some((hrec(&cb), hrec(v.for_slice()), cb == *v, *v == cb, v.for_slice() == v, sgn(cb.canonical_cmp(v)), cb.partial_cmp(v).map(sgn)))
+        });
+        match &extra {
+            Ok(Some((hb, hf, e1, e2, e3, can, pc))) => {
+                let hv = hrec(v);
+                if *hb != hv || *hf != hv || !e1 || !e2 || !e3 || *can != 0 || *pc != Some(0) {
+                    env.viol("C04|charstr|representation|Bytes-or-for_slice-differs".into(), hex(&items[i].1), json!({"domain": "charstr", "items": [desc(i)]}));
+                }
+            }
+            _ => env.viol("C04|charstr|representation|Bytes-value-cannot-be-built-or-panics".into(), hex(&items[i].1), json!({"domain": "charstr", "items": [desc(i)]})),
+        }
         match guard(|| (hrec(v), hrec(s), hrec(*u))) {
             Err(e) => {
                 env.viol(format!("C04|charstr|panic|{}", panic_class(&e)), e, json!({"domain": "charstr", "items": [desc(i)]}));
@@ -717,6 +752,7 @@ fn dom_charstrs(env: &Env, only: Option<&[usize]>) {
                     can_vs: sgn(v1.canonical_cmp(s2)),
                     can_sv: sgn(s1.canonical_cmp(v2)),
                     can_uu: sgn(u1.canonical_cmp(*u2)),
+                    can_ops_ok: canon_ops_ok(v1, v2) && canon_ops_ok(s1, v2) && canon_ops_ok(*u1, *u2),
                 });
                 env.stats.eval();
                 if i != j {
@@ -751,6 +787,9 @@ fn dom_charstrs(env: &Env, only: Option<&[usize]>) {
                 let ref_can = sgn(wa.cmp(&wire_label(b)));
                 if o.can_vv != ref_can {
                     env.viol("C04|charstr|canonical_cmp-vs-wire-octets".into(), format!("canonical_cmp({}, {}) = {}, wire octets (length octet first) order {}", hex(a), hex(b), ord_s(o.can_vv), ord_s(ref_can)), case());
+                }
+                if !o.can_ops_ok {
+                    env.viol("C04|charstr|canonical_lt/le/gt/ge-vs-canonical_cmp".into(), format!("{} ? {}: {:?}", hex(a), hex(b), o), case());
                 }
                 if [o.can_vs, o.can_sv, o.can_uu] != [o.can_vv; 3] {
                     env.viol("C04|charstr|representation|canonical_cmp-differs-between-octets-types".into(), format!("{} ? {}: {:?}", hex(a), hex(b), o), case());
@@ -830,6 +869,8 @@ struct RepSpec {
     /// the octets of the name are contiguous in memory (flat, uncompressed,
     /// or reached through bare pointers)
     contiguous: bool,
+    /// "": none; otherwise a special way to build the value
+    special: &'static str,
 }
 
 fn rep_specs(name: usize, labels: &[Vec<u8>], chain3: bool) -> Vec<RepSpec> {
@@ -837,7 +878,7 @@ fn rep_specs(name: usize, labels: &[Vec<u8>], chain3: bool) -> Vec<RepSpec> {
     let mut out = Vec::new();
     let spec = |kind: String, msg: Vec<u8>, pos: usize, split: Option<usize>, flat: bool| {
         let contiguous = flat || kind == "parsed-uncompressed" || kind == "parsed-compressed-at-0" || kind == "parsed-double-pointer";
-        RepSpec { name, kind, msg, pos, split, split2: None, flat, contiguous }
+        RepSpec { name, kind, msg, pos, split, split2: None, flat, contiguous, special: "" }
     };
     out.push(spec("flat".into(), vec![], 0, None, true));
     // uncompressed inside a message, after a 12 octet header
@@ -883,6 +924,28 @@ fn rep_specs(name: usize, labels: &[Vec<u8>], chain3: bool) -> Vec<RepSpec> {
     for s in 0..=k {
         out.push(spec(format!("chain-split-at-{s}"), vec![], 0, Some(s), false));
     }
+    // `ParsedName::from(Name)` (this and the following kinds: extended set only)
+    if chain3 {
+        let mut sp = spec("parsed-from-name".into(), name_wire(labels), 0, None, false);
+        sp.contiguous = true;
+        sp.special = "parsed-from-name";
+        out.push(sp);
+    }
+    // a chain whose left part is an `UncertainName`: relative (split at every
+    // boundary) or absolute (then the right part, here `b.`, is ignored)
+    for s in 0..=(if chain3 { k } else { 0 }) {
+        if !chain3 {
+            break;
+        }
+        let mut sp = spec(format!("uncertain-chain-relative-split-at-{s}"), vec![], 0, Some(s), false);
+        sp.special = "uncertain-relative";
+        out.push(sp);
+    }
+    if chain3 {
+        let mut sp = spec("uncertain-chain-absolute".into(), vec![], 0, None, false);
+        sp.special = "uncertain-absolute";
+        out.push(sp);
+    }
     if chain3 {
         // a chain of a chain of two relative names and an absolute name
         for s1 in 0..=k {
@@ -905,6 +968,7 @@ enum Rep<'a> {
     Parsed(ParsedName<&'a [u8]>),
     Chain(Ch),
     Chain3(Ch3),
+    UChain(Chain<domain::base::name::UncertainName<Vec<u8>>, Nm>),
 }
 
 /// Bind the concrete name type of one representation.
@@ -915,6 +979,7 @@ macro_rules! one_rep {
             Rep::Parsed($a) => $body,
             Rep::Chain($a) => $body,
             Rep::Chain3($a) => $body,
+            Rep::UChain($a) => $body,
         }
     };
 }
@@ -932,7 +997,7 @@ macro_rules! left_pair {
         match $x {
             Rep::Flat($a) => Some(one_rep!($y, |$b| $body)),
             Rep::Parsed($a) => Some(one_rep!($y, |$b| $body)),
-            Rep::Chain(_) | Rep::Chain3(_) => None,
+            Rep::Chain(_) | Rep::Chain3(_) | Rep::UChain(_) => None,
         }
     };
 }
@@ -947,6 +1012,7 @@ struct NameObs {
     ops: Option<(bool, Option<i8>, i8, bool, bool, bool, bool)>,
     /// Ord::cmp (same type on both sides)
     ord: Option<i8>,
+    can_ops_ok: Option<bool>,
 }
 
 fn observe_names(x: &Rep, y: &Rep) -> NameObs {
@@ -957,7 +1023,8 @@ fn observe_names(x: &Rep, y: &Rep) -> NameObs {
         (Rep::Parsed(a), Rep::Parsed(b)) => Some(sgn(a.cmp(b))),
         _ => None,
     };
-    NameObs { name_eq, name_cmp, composed, lc_composed, ops, ord }
+    let can_ops_ok = left_pair!(x, y, |a, b| canon_ops_ok(a, b));
+    NameObs { name_eq, name_cmp, composed, lc_composed, ops, ord, can_ops_ok }
 }
 
 fn dom_names(env: &Env, depth: usize, menu: usize, chain3: bool, rep_triples: bool, dom_id: u64, only: Option<&[usize]>) {
@@ -976,8 +1043,20 @@ fn dom_names(env: &Env, depth: usize, menu: usize, chain3: bool, rep_triples: bo
         let labels = &names[s.name];
         env.stats.eval();
         let r: Result<Result<Rep, String>, String> = guard(|| {
+            use domain::base::name::UncertainName;
             if s.flat {
                 Name::from_octets(name_wire(labels)).map(Rep::Flat).map_err(|e| e.to_string())
+            } else if s.special == "parsed-from-name" {
+                Name::from_octets(s.msg.as_slice()).map(|n| Rep::Parsed(ParsedName::from(n))).map_err(|e| e.to_string())
+            } else if s.special == "uncertain-relative" {
+                let sp = s.split.unwrap_or(0);
+                let left = RelativeName::from_octets(labels_wire(&labels[..sp])).map_err(|e| e.to_string())?;
+                let right = Name::from_octets(name_wire(&labels[sp..])).map_err(|e| e.to_string())?;
+                UncertainName::from(left).chain(right).map(Rep::UChain).map_err(|e| e.to_string())
+            } else if s.special == "uncertain-absolute" {
+                let left = Name::from_octets(name_wire(labels)).map_err(|e| e.to_string())?;
+                let right = Name::from_octets(name_wire(&[b"b".to_vec()])).map_err(|e| e.to_string())?;
+                UncertainName::from(left).chain(right).map(Rep::UChain).map_err(|e| e.to_string())
             } else if let (Some(s1), Some(s2)) = (s.split, s.split2) {
                 let a = RelativeName::from_octets(labels_wire(&labels[..s1])).map_err(|e| e.to_string())?;
                 let b = RelativeName::from_octets(labels_wire(&labels[s1..s2])).map_err(|e| e.to_string())?;
@@ -1014,6 +1093,57 @@ fn dom_names(env: &Env, depth: usize, menu: usize, chain3: bool, rep_triples: bo
             env.stats.count(&format!("name(depth{depth},menu{menu}):{}:{}", k.trim_end_matches(char::is_numeric), if p.is_compressed() { "is_compressed" } else { "flat-slice-path" }));
         }
     }
+    // unary: conversions between representations keep the name (and the
+    // canonical ones lower-case it), whatever the representation
+    let wires_u: Vec<Vec<u8>> = names.iter().map(|l| name_wire(l)).collect();
+    let lwires_u: Vec<Vec<u8>> = names.iter().map(|l| name_wire(&l.iter().map(|x| lc(x)).collect::<Vec<_>>())).collect();
+    for (i, r) in reps.iter().enumerate() {
+        fn via_ref<N: ToName>(n: N, o: &impl ToName) -> (bool, i8) {
+            (n.name_eq(o), sgn(n.name_cmp(o)))
+        }
+        let ni = specs[i].1.name;
+        env.stats.eval();
+        let res = guard(|| {
+            one_rep!(r, |a| {
+                let n1: Name<Vec<u8>> = a.to_name();
+                let n5: Name<Vec<u8>> = a.to_canonical_name();
+                let n6: Option<Name<Vec<u8>>> = a.try_to_name().ok();
+                let n7: Option<Name<Vec<u8>>> = a.try_to_canonical_name().ok();
+                let mut c1 = Vec::new();
+                let mut c2 = Vec::new();
+                let _ = a.compose(&mut c1);
+                let _ = a.compose_canonical(&mut c2);
+                let plain = [n1.as_slice().to_vec(), a.to_vec().as_slice().to_vec(), a.to_bytes().as_slice().to_vec(), a.to_cow().as_slice().to_vec(), n6.map(|n| n.as_slice().to_vec()).unwrap_or_default(), c1];
+                let canon = [n5.as_slice().to_vec(), n7.map(|n| n.as_slice().to_vec()).unwrap_or_default(), c2];
+                (plain, canon, a.compose_len(), via_ref(a, &n1), n1.name_eq(a), n5.name_eq(a), hrec(&n1), hrec(&n5))
+            })
+        });
+        let case = || json!({"domain": dom, "depth": depth, "items": [desc(i)]});
+        match res {
+            Err(e) => env.viol(format!("C04|name|panic|{}", panic_class(&e)), e, case()),
+            Ok((plain, canon, clen, by_ref, eq1, eq5, h1, h5)) => {
+                if plain.iter().any(|w| *w != wires_u[ni]) || clen as usize != wires_u[ni].len() {
+                    env.viol("C04|name|conversion|to_name/to_vec/to_bytes/to_cow/compose-changes-the-name".into(), format!("{:?} (compose_len {clen}) vs {}", plain.iter().map(|w| hex(w)).collect::<Vec<_>>(), hex(&wires_u[ni])), case());
+                }
+                if canon.iter().any(|w| *w != lwires_u[ni]) {
+                    env.viol("C04|name|conversion|canonical-form-is-not-the-lower-cased-name".into(), format!("{:?} vs {}", canon.iter().map(|w| hex(w)).collect::<Vec<_>>(), hex(&lwires_u[ni])), case());
+                }
+                if by_ref != (true, 0) || !eq1 || !eq5 {
+                    env.viol("C04|name|conversion|converted-name-not-equal-to-original".into(), format!("via &N {by_ref:?}, to_name == {eq1}, to_canonical_name == {eq5}"), case());
+                }
+                if h1.stream != h5.stream {
+                    env.viol("C04|name|conversion|canonical-name-hashes-differently".into(), format!("{} vs {}", hex(&h1.stream), hex(&h5.stream)), case());
+                }
+            }
+        }
+        if let Rep::Chain(c) = r {
+            let fl: Result<Result<Name<Vec<u8>>, _>, String> = guard(|| c.clone().try_flatten_into());
+            match fl {
+                Ok(Ok(nm)) if nm.as_slice() == &wires_u[ni][..] => {}
+                other => env.viol("C04|name|conversion|flatten_into-changes-the-name".into(), format!("{:?}", other.map(|r| r.map(|n| hex(n.as_slice())).map_err(|_| ()))), case()),
+            }
+        }
+    }
     // unary: hash inputs (Name and ParsedName only; Chain has no Hash)
     let hashes: Vec<Option<Hs>> = reps
         .iter()
@@ -1022,7 +1152,7 @@ fn dom_names(env: &Env, depth: usize, menu: usize, chain3: bool, rep_triples: bo
             let h = guard(|| match r {
                 Rep::Flat(a) => Some(hrec(a)),
                 Rep::Parsed(a) => Some(hrec(a)),
-                Rep::Chain(_) | Rep::Chain3(_) => None,
+                Rep::Chain(_) | Rep::Chain3(_) | Rep::UChain(_) => None,
             });
             match h {
                 Ok(h) => {
@@ -1090,6 +1220,9 @@ fn dom_names(env: &Env, depth: usize, menu: usize, chain3: bool, rep_triples: bo
                         env.viol(format!("C04|name|operators-vs-name_eq/name_cmp|{}", kinds()), format!("{o:?}"), case());
                     }
                 }
+                if o.can_ops_ok == Some(false) {
+                    env.viol("C04|name|canonical_lt/le/gt/ge-vs-canonical_cmp".into(), format!("{o:?}"), case());
+                }
                 if let Some(c) = o.ord {
                     if c != o.name_cmp {
                         env.viol(format!("C04|name|Ord::cmp-vs-name_cmp|{}", kinds()), format!("{o:?}"), case());
@@ -1132,6 +1265,59 @@ fn dom_names(env: &Env, depth: usize, menu: usize, chain3: bool, rep_triples: bo
     let frel = sub_rel(&rel, &flat_idx);
     let fh: Vec<Hs> = flat_idx.iter().map(|&i| hashes[i].clone().unwrap_or_default()).collect();
     let fdesc = |a: usize| desc(flat_idx[a]);
+    // flat names in other octets types: Bytes, &[u8], unsized [u8]
+    {
+        use bytes::Bytes;
+        let m = flat_idx.len();
+        let fw: Vec<&Vec<u8>> = flat_idx.iter().map(|&i| &wires_u[specs[i].1.name]).collect();
+        let nb: Vec<Name<Bytes>> = fw.iter().map(|w| Name::from_octets(Bytes::copy_from_slice(w)).unwrap()).collect();
+        let ns: Vec<Name<&[u8]>> = fw.iter().map(|w| Name::from_octets(w.as_slice()).unwrap()).collect();
+        let nu: Vec<&Name<[u8]>> = fw.iter().map(|w| Name::from_slice(w).unwrap()).collect();
+        let nv: Vec<Nm> = fw.iter().map(|w| Name::from_octets((*w).clone()).unwrap()).collect();
+        for a in 0..m {
+            env.stats.eval();
+            let r = guard(|| {
+                let borrowed: &Name<[u8]> = std::borrow::Borrow::borrow(&nv[a]);
+                let mut canon = nv[a].clone();
+                canon.make_canonical();
+                ([hrec(&nb[a]), hrec(&ns[a]), hrec(nu[a]), hrec(borrowed), hrec(nv[a].for_slice()), hrec(&nv[a].for_ref()), hrec(&canon)], borrowed == &nv[a], canon.as_slice().to_vec(), canon == nv[a])
+            });
+            let case = || json!({"domain": dom, "depth": depth, "items": [fdesc(a)]});
+            match r {
+                Err(e) => env.viol(format!("C04|name|panic|{}", panic_class(&e)), e, case()),
+                Ok((hs, beq, cw, ceq)) => {
+                    if hs.iter().any(|h| *h != fh[a]) {
+                        env.viol("C04|name|representation|hash-differs-between-octets-types-or-after-make_canonical".into(), format!("{:?}", hs.iter().map(|h| hex(&h.stream)).collect::<Vec<_>>()), case());
+                    }
+                    if !beq || !ceq || cw != lwires_u[specs[flat_idx[a]].1.name] {
+                        env.viol("C04|name|conversion|borrow-or-make_canonical-changes-the-name".into(), format!("borrow == {beq}, canonical == {ceq}, canonical octets {}", hex(&cw)), case());
+                    }
+                }
+            }
+        }
+        (0..m).into_par_iter().for_each(|a| {
+            for b in 0..m {
+                let r = guard(|| {
+                    let eqs = [nb[a] == ns[b], ns[a] == nv[b], nb[a] == *nu[b], *nu[a] == nb[b], *nu[a] == *nu[b]];
+                    let cmps = [sgn(nb[a].cmp(&nb[b])), sgn(ns[a].cmp(&ns[b])), sgn(nu[a].cmp(nu[b]))];
+                    let pcs = [nb[a].partial_cmp(&ns[b]).map(sgn), ns[a].partial_cmp(nu[b]).map(sgn), nu[a].partial_cmp(&nv[b]).map(sgn)];
+                    let cans = [sgn(nb[a].canonical_cmp(&ns[b])), sgn(nu[a].canonical_cmp(&nb[b]))];
+                    (eqs, cmps, pcs, cans)
+                });
+                env.stats.eval();
+                let case = || json!({"domain": dom, "depth": depth, "items": [fdesc(a), fdesc(b)]});
+                match r {
+                    Err(e) => env.viol(format!("C04|name|panic|{}", panic_class(&e)), e, case()),
+                    Ok((eqs, cmps, pcs, cans)) => {
+                        let (e, c) = (frel.e(a, b), frel.c(a, b));
+                        if eqs.iter().any(|x| *x != e) || cmps.iter().any(|x| *x != c) || pcs.iter().any(|x| *x != Some(c)) || cans.iter().any(|x| *x != c) {
+                            env.viol("C04|name|representation|results-differ-between-octets-types".into(), format!("Vec: == {e}, cmp {c}; others: {eqs:?} {cmps:?} {pcs:?} {cans:?}"), case());
+                        }
+                    }
+                }
+            }
+        });
+    }
     let fcls = |_: usize, _: usize| "flat-vs-flat".to_string();
     check_laws(env, &LawCfg { dom: "name-flat", ord_name: "cmp", with_eq: true, triples: true, desc: &fdesc, pair_class: &fcls, hash_class: &fcls, only_prefix: None, tag: &format!("{dn}-flat"), sig_dom: "name-flat" }, &frel, Some(&fh));
 }
@@ -1226,6 +1412,43 @@ fn dom_relnames(env: &Env, depth: usize, only: Option<&[usize]>) {
                 };
                 env.viol("C04|relname|representation-cannot-be-built".into(), e, json!({"domain": dom, "items": [desc(i)]}));
                 reps.push(RRep::Flat(RelativeName::empty_vec()));
+            }
+        }
+    }
+    // unary: conversions keep the name; canonical ones lower-case it
+    for (i, r) in reps.iter().enumerate() {
+        let labels = &names[specs[i].1.name];
+        let (w, lw) = (labels_wire(labels), labels_wire(&labels.iter().map(|x| lc(x)).collect::<Vec<_>>()));
+        env.stats.eval();
+        let res = guard(|| {
+            one_rrep!(r, |a| {
+                let n1: RelativeName<Vec<u8>> = a.to_relative_name();
+                let n5: RelativeName<Vec<u8>> = a.to_canonical_relative_name();
+                let mut c1 = Vec::new();
+                let mut c2 = Vec::new();
+                let _ = ToRelativeName::compose(a, &mut c1);
+                let _ = ToRelativeName::compose_canonical(a, &mut c2);
+                let abs = a.clone().chain_root().to_vec();
+                let plain = [n1.as_slice().to_vec(), a.to_vec().as_slice().to_vec(), a.to_bytes().as_slice().to_vec(), a.to_cow().as_slice().to_vec(), c1];
+                let canon = [n5.as_slice().to_vec(), c2];
+                (plain, canon, abs.as_slice().to_vec(), ToRelativeName::is_empty(a), n1.name_eq(a), a.name_eq(&n5), hrec(&n1) == hrec(&n5), a.compose_len())
+            })
+        });
+        let case = || json!({"domain": dom, "items": [desc(i)]});
+        match res {
+            Err(e) => env.viol(format!("C04|relname|panic|{}", panic_class(&e)), e, case()),
+            Ok((plain, canon, abs, empty, eq1, eq5, same_hash, clen)) => {
+                let mut aw = w.clone();
+                aw.push(0);
+                if plain.iter().any(|x| *x != w) || abs != aw || empty != w.is_empty() || clen as usize != w.len() {
+                    env.viol("C04|relname|conversion|to_relative_name/to_vec/to_bytes/to_cow/compose/chain_root-changes-the-name".into(), format!("{:?} abs {} is_empty {empty} compose_len {clen} vs {}", plain.iter().map(|x| hex(x)).collect::<Vec<_>>(), hex(&abs), hex(&w)), case());
+                }
+                if canon.iter().any(|x| *x != lw) {
+                    env.viol("C04|relname|conversion|canonical-form-is-not-the-lower-cased-name".into(), format!("{:?} vs {}", canon.iter().map(|x| hex(x)).collect::<Vec<_>>(), hex(&lw)), case());
+                }
+                if !eq1 || !eq5 || !same_hash {
+                    env.viol("C04|relname|conversion|converted-name-not-equal-or-hashes-differently".into(), format!("to_relative_name == {eq1}, canonical == {eq5}, same hash {same_hash}"), case());
+                }
             }
         }
     }
@@ -1506,6 +1729,7 @@ struct RdObs {
     pf: Option<(bool, Option<i8>, i8)>,
     fp: Option<(bool, Option<i8>, i8)>,
     pp: Option<(bool, Option<i8>, i8, i8)>,
+    can_ops_ok: bool,
 }
 
 /// Class of a pair for the ==/cmp/hash coherence laws: with a label- or
@@ -1597,6 +1821,7 @@ where
                     pf: px.as_ref().map(|px| (px == y, px.partial_cmp(y).map(sgn), sgn(px.canonical_cmp(y)))),
                     fp: py.as_ref().map(|py| (x == py, x.partial_cmp(py).map(sgn), sgn(x.canonical_cmp(py)))),
                     pp: px.as_ref().zip(py.as_ref()).map(|(px, py)| (px == py, px.partial_cmp(py).map(sgn), sgn(px.canonical_cmp(py)), sgn(px.cmp(py)))),
+                    can_ops_ok: canon_ops_ok(x, y) && px.as_ref().map(|px| canon_ops_ok(px, y)).unwrap_or(true),
                 });
                 env.stats.eval();
                 if i != j {
@@ -1616,6 +1841,9 @@ where
                 let pc = rd_pair_class(metas, i, j);
                 if o.pcmp != Some(o.cmp) {
                     env.viol(format!("C04|rdata|partial_cmp-vs-cmp|{pc}"), format!("{o:?}"), case());
+                }
+                if !o.can_ops_ok {
+                    env.viol("C04|rdata|canonical_lt/le/gt/ge-vs-canonical_cmp".into(), format!("{pc}: {o:?}"), case());
                 }
                 let f = (o.eq, o.pcmp, o.can);
                 if o.pf.map(|v| v != f).unwrap_or(false) || o.fp.map(|v| v != f).unwrap_or(false) || o.pp.map(|v| (v.0, v.1, v.2) != f || v.3 != o.cmp).unwrap_or(false) {
@@ -1786,6 +2014,7 @@ struct RecObs {
     can: i8,
     pf: Option<(bool, Option<i8>, i8)>,
     fp: Option<(bool, Option<i8>, i8)>,
+    can_ops_ok: bool,
 }
 
 fn dom_records(env: &Env, only: Option<&[usize]>) {
@@ -1888,6 +2117,30 @@ fn dom_records(env: &Env, only: Option<&[usize]>) {
         w
     };
     let fulls: Vec<Vec<u8>> = items.iter().map(|(_, r)| full_canon(r, &rm[r.data].canon[0])).collect();
+    // the library's own canonical form of the whole record (second opinion
+    // for the order within an RRset) and the parsed record flattened
+    let own_canon: Vec<Option<Vec<u8>>> = (0..n)
+        .into_par_iter()
+        .map(|i| {
+            let c = guard(|| {
+                let mut t = Vec::new();
+                flat[i].compose_canonical(&mut t).ok().map(|_| t)
+            })
+            .ok()
+            .flatten();
+            if c.as_ref() != Some(&fulls[i]) {
+                env.stats.count(&format!("record:compose_canonical-differs-from-rfc4034-6.2-form:{}", rm[items[i].1.data].mnemonic));
+            }
+            if let Some(p) = &parsed[i] {
+                let fl: Result<Result<Record<Nm, Rd>, std::convert::Infallible>, String> = guard(|| p.clone().try_flatten_into());
+                match fl {
+                    Ok(Ok(r)) if r == flat[i] && flat[i] == r && r.cmp(&flat[i]) == Ordering::Equal && hrec(&r).stream == hashes[i].stream => {}
+                    _ => env.viol("C04|record|conversion|flattened-parsed-record-differs-from-flat".into(), rm[items[i].1.data].desc.clone(), json!({"domain": dom, "items": [desc(i)]})),
+                }
+            }
+            c
+        })
+        .collect();
     let mut rel = Rel::new(n);
     let mut crel = Rel::new(n);
     let track_pairs = n * n <= 6_000_000;
@@ -1910,6 +2163,7 @@ fn dom_records(env: &Env, only: Option<&[usize]>) {
                     can: sgn(x.canonical_cmp(y)),
                     pf: px.as_ref().map(|px| (px == y, px.partial_cmp(y).map(sgn), sgn(px.canonical_cmp(y)))),
                     fp: py.as_ref().map(|py| (x == py, x.partial_cmp(py).map(sgn), sgn(x.canonical_cmp(py)))),
+                    can_ops_ok: canon_ops_ok(x, y) && py.as_ref().map(|py| canon_ops_ok(x, py)).unwrap_or(true),
                 });
                 env.stats.eval();
                 if i != j {
@@ -1932,6 +2186,9 @@ fn dom_records(env: &Env, only: Option<&[usize]>) {
                 rcc[j] = o.can;
                 if o.pcmp != Some(o.cmp) {
                     env.viol("C04|record|partial_cmp-vs-cmp".into(), format!("{o:?}"), case());
+                }
+                if !o.can_ops_ok {
+                    env.viol("C04|record|canonical_lt/le/gt/ge-vs-canonical_cmp".into(), format!("{o:?}"), case());
                 }
                 let f = (o.eq, o.pcmp, o.can);
                 if o.pf.map(|v| v != f).unwrap_or(false) || o.fp.map(|v| v != f).unwrap_or(false) {
@@ -1964,6 +2221,16 @@ fn dom_records(env: &Env, only: Option<&[usize]>) {
                     vec![doc, sgn(fulls[i].cmp(&fulls[j]))]
                 };
                 *local.entry(format!("record:canonical:{}", if same_rrset { "same-rrset" } else { "different-rrset" })).or_insert(0) += 1;
+                if same_rrset && a.ttl == b.ttl {
+                    if let (Some(ci), Some(cj)) = (&own_canon[i], &own_canon[j]) {
+                        // RFC 4034 6.3 orders by the RDATA portion of the canonical form: skip owner, type, class, TTL and RDLENGTH
+                        let hl = name_wire(&owners[a.owner]).len() + 10;
+                        let own = sgn(ci[hl.min(ci.len())..].cmp(&cj[hl.min(cj.len())..]));
+                        if own != o.can && accept.contains(&o.can) {
+                            env.viol("C04|record|canonical_cmp-vs-own-compose_canonical-octets".into(), format!("canonical_cmp = {}, octet order of the RDATA portion of the Record::compose_canonical outputs is {}", ord_s(o.can), ord_s(own)), case());
+                        }
+                    }
+                }
                 let dl = dlev[a.data * nd + b.data];
                 if !accept.contains(&o.can) && same_rrset && dl.map(|d| d.2 == o.can && d.2 != rdo).unwrap_or(false) {
                     *local.entry(format!("record:canonical_cmp-propagates-rdata-level-defect:{}", ma.mnemonic)).or_insert(0) += 1;
@@ -2402,6 +2669,277 @@ fn dom_fields(env: &Env, only: Option<(usize, usize, usize)>) {
     }
 }
 
+//------------ NSEC3 salt and owner hash, signature times ---------------------------------
+
+/// One domain per octets newtype that is part of record data and has its
+/// own Eq/Ord/Hash/CanonicalOrd: all strings of length <= 2 over {00, 01,
+/// 'A', 'a', FF} in two octets types. Equality is octet equality (binary
+/// data), the canonical order is that of the wire form (length octet first).
+macro_rules! octets_newtype_domain {
+    ($fname:ident, $ty:ident, $dom:expr, $id:expr) => {
+        fn $fname(env: &Env, only: Option<&[usize]>) {
+            use domain::rdata::nsec3::$ty;
+            let dom = $dom;
+            let alpha = [0x00u8, 0x01, b'A', b'a', 0xFF];
+            let mut all: Vec<Vec<u8>> = vec![vec![]];
+            for x in alpha {
+                all.push(vec![x]);
+            }
+            for x in alpha {
+                for y in alpha {
+                    all.push(vec![x, y]);
+                }
+            }
+            let items = restrict(all, only);
+            let n = items.len();
+            let desc = |i: usize| json!({"index": items[i].0, "octets": hex(&items[i].1)});
+            let vs: Vec<$ty<Vec<u8>>> = items.iter().map(|(_, b)| $ty::from_octets(b.clone()).expect("short value")).collect();
+            let ss: Vec<$ty<&[u8]>> = items.iter().map(|(_, b)| $ty::from_octets(b.as_slice()).expect("short value")).collect();
+            let hashes: Vec<Hs> = (0..n)
+                .map(|i| {
+                    let (h, h2) = (hrec(&vs[i]), hrec(&ss[i]));
+                    if h != h2 {
+                        env.viol(format!("C04|{dom}|representation|hash-differs-between-octets-types"), hex(&items[i].1), json!({"domain": dom, "items": [desc(i)]}));
+                    }
+                    h
+                })
+                .collect();
+            let mut rel = Rel::new(n);
+            for i in 0..n {
+                for j in 0..n {
+                    let (a, b) = (&items[i].1, &items[j].1);
+                    let case = || json!({"domain": dom, "items": [desc(i), desc(j)]});
+                    let r = guard(|| {
+                        (
+                            (vs[i] == vs[j], vs[i] == ss[j], ss[i] == vs[j], vs[i] == b[..]),
+                            (sgn(vs[i].cmp(&vs[j])), sgn(ss[i].cmp(&ss[j])), vs[i].partial_cmp(&ss[j]).map(sgn), ss[i].partial_cmp(&vs[j]).map(sgn)),
+                            (sgn(vs[i].canonical_cmp(&vs[j])), sgn(vs[i].canonical_cmp(&ss[j])), sgn(ss[i].canonical_cmp(&vs[j]))),
+                            canon_ops_ok(&vs[i], &ss[j]),
+                        )
+                    });
+                    env.stats.eval();
+                    if i != j {
+                        env.stats.distinct(mix($id, items[i].0, items[j].0));
+                    }
+                    let (eqs, cmps, cans, ops_ok) = match r {
+                        Ok(o) => o,
+                        Err(e) => {
+                            env.viol(format!("C04|{dom}|panic|{}", panic_class(&e)), e, case());
+                            continue;
+                        }
+                    };
+                    env.say(|| format!("{dom} {} ? {}: eq {eqs:?} cmp {cmps:?} canonical {cans:?}", hex(a), hex(b)));
+                    rel.eq[i * n + j] = eqs.0;
+                    rel.cmp[i * n + j] = cmps.0;
+                    if eqs.0 != (a == b) {
+                        env.viol(format!("C04|{dom}|eq-vs-octet-equality"), format!("{} == {} is {}", hex(a), hex(b), eqs.0), case());
+                    }
+                    if (eqs.1, eqs.2, eqs.3) != (eqs.0, eqs.0, eqs.0) || cmps.1 != cmps.0 || cmps.2 != Some(cmps.0) || cmps.3 != Some(cmps.0) || cans.1 != cans.0 || cans.2 != cans.0 {
+                        env.viol(format!("C04|{dom}|representation|results-differ-between-octets-types"), format!("{eqs:?} {cmps:?} {cans:?}"), case());
+                    }
+                    let want = sgn(wire_label(a).cmp(&wire_label(b)));
+                    if cans.0 != want {
+                        env.viol(format!("C04|{dom}|canonical_cmp-vs-wire-octets"), format!("canonical_cmp({}, {}) = {}, wire octets (length octet first) order {}", hex(a), hex(b), ord_s(cans.0), ord_s(want)), case());
+                    }
+                    if !ops_ok {
+                        env.viol(format!("C04|{dom}|canonical_lt/le/gt/ge-vs-canonical_cmp"), format!("{} ? {}", hex(a), hex(b)), case());
+                    }
+                }
+            }
+            let cls = |_: usize, _: usize| "-".to_string();
+            check_laws(env, &LawCfg { dom, ord_name: "cmp", with_eq: true, triples: true, desc: &desc, pair_class: &cls, hash_class: &cls, only_prefix: None, tag: dom, sig_dom: dom }, &rel, Some(&hashes));
+        }
+    };
+}
+
+octets_newtype_domain!(dom_owner_hash, OwnerHash, "nsec3-owner-hash", 13);
+octets_newtype_domain!(dom_nsec3_salt, Nsec3Salt, "nsec3-salt", 14);
+
+/// Signature times: canonical order and equality are those of the 32 bit
+/// integer on the wire (the serial-arithmetic PartialOrd is C17's).
+fn dom_timestamps(env: &Env) {
+    use domain::rdata::dnssec::Timestamp;
+    let vals: [u32; 8] = [0, 1, 2, 0x7FFF_FFFF, 0x8000_0000, 0x8000_0001, 0xFFFF_FFFE, 0xFFFF_FFFF];
+    for a in vals {
+        for b in vals {
+            let (x, y) = (Timestamp::from(a), Timestamp::from(b));
+            let r = guard(|| (x == y, sgn(x.canonical_cmp(&y)), canon_ops_ok(&x, &y), true));
+            env.stats.eval();
+            env.stats.distinct(mix(15, a as usize, b as usize));
+            let case = || json!({"domain": "timestamp", "items": [{"value": a}, {"value": b}]});
+            match r {
+                Err(e) => env.viol(format!("C04|timestamp|panic|{}", panic_class(&e)), e, case()),
+                Ok((eq, can, ops_ok, same_hash)) => {
+                    if eq != (a == b) || can != sgn(a.cmp(&b)) || !ops_ok {
+                        env.viol("C04|timestamp|eq-or-canonical_cmp-vs-wire-integer".into(), format!("{a} ? {b}: == {eq}, canonical_cmp {}", ord_s(can)), case());
+                    }
+                    if eq && !same_hash {
+                        env.viol("C04|timestamp|eq-implies-hash".into(), format!("{a} vs {b}"), case());
+                    }
+                }
+            }
+        }
+    }
+}
+
+//------------ record headers and parsed records ---------------------------------------------
+
+enum Hdr<'a> {
+    Flat(RecordHeader<Nm>),
+    Parsed(RecordHeader<ParsedName<&'a [u8]>>),
+}
+
+macro_rules! one_hdr {
+    ($x:expr, |$a:ident| $body:expr) => {
+        match $x {
+            Hdr::Flat($a) => $body,
+            Hdr::Parsed($a) => $body,
+        }
+    };
+}
+
+/// Record headers: owners {a., A., b.a.} x types {A, NS} x classes {IN, CH} x
+/// TTLs {1, 3600} x RDLEN {0, 4}, each built with `RecordHeader::new` and
+/// parsed from a message with a compressed and with an uncompressed owner.
+/// The same messages give `ParsedRecord`s (Eq only).
+fn dom_headers(env: &Env, only: Option<&[usize]>) {
+    use domain::base::record::ParsedRecord;
+    let dom = "record-header";
+    let owners = owner_menu();
+    struct H {
+        owner: usize,
+        rtype: u16,
+        class: u16,
+        ttl: u32,
+        rdlen: u16,
+        kind: &'static str,
+        msg: Vec<u8>,
+        pos: usize,
+    }
+    let mut all = Vec::new();
+    for o in 0..owners.len() {
+        for rtype in [1u16, 2] {
+            for class in [1u16, 3] {
+                for ttl in [1u32, 3600] {
+                    for rdlen in [0u16, 4] {
+                        for kind in ["new", "parsed-compressed-owner", "parsed-uncompressed-owner"] {
+                            let mut m = vec![0u8, 0, 0, 0, 0, 1, 0, 1, 0, 0, 0, 0];
+                            m.extend_from_slice(&name_wire(&owners[o]));
+                            m.extend_from_slice(&[0, 1, 0, 1]);
+                            let pos = m.len();
+                            if kind == "parsed-uncompressed-owner" {
+                                m.extend_from_slice(&name_wire(&owners[o]));
+                            } else {
+                                m.extend_from_slice(&ptr(12));
+                            }
+                            m.extend_from_slice(&rtype.to_be_bytes());
+                            m.extend_from_slice(&class.to_be_bytes());
+                            m.extend_from_slice(&ttl.to_be_bytes());
+                            m.extend_from_slice(&rdlen.to_be_bytes());
+                            m.extend_from_slice(&[0xC0, 0x00, 0x02, 0x01][..rdlen as usize]);
+                            all.push(H { owner: o, rtype, class, ttl, rdlen, kind, msg: m, pos });
+                        }
+                    }
+                }
+            }
+        }
+    }
+    let items = restrict(all, only);
+    let n = items.len();
+    let desc = |i: usize| {
+        let h = &items[i].1;
+        json!({"index": items[i].0, "owner": owners[h.owner].iter().map(|l| String::from_utf8_lossy(l).to_string()).collect::<Vec<_>>(), "rtype": h.rtype, "class": h.class, "ttl": h.ttl, "rdlen": h.rdlen, "representation": h.kind, "message": hex(&h.msg)})
+    };
+    let mut hdrs: Vec<Hdr> = Vec::with_capacity(n);
+    let mut recs: Vec<Option<ParsedRecord<[u8]>>> = Vec::with_capacity(n);
+    for (_, h) in &items {
+        if h.kind == "new" {
+            hdrs.push(Hdr::Flat(RecordHeader::new(Name::from_octets(name_wire(&owners[h.owner])).unwrap(), Rtype::from_int(h.rtype), Class::from_int(h.class), Ttl::from_secs(h.ttl), h.rdlen)));
+            recs.push(None);
+        } else {
+            let parse = guard(|| {
+                let mut p = Parser::from_ref(h.msg.as_slice());
+                p.advance(h.pos).ok()?;
+                let hd = RecordHeader::parse_ref(&mut p).ok()?;
+                let mut p2 = Parser::from_ref(h.msg.as_slice());
+                p2.advance(h.pos).ok()?;
+                let rec = ParsedRecord::parse(&mut p2).ok()?;
+                Some((hd, rec))
+            });
+            match parse {
+                Ok(Some((hd, rec))) => {
+                    hdrs.push(Hdr::Parsed(hd));
+                    recs.push(Some(rec));
+                }
+                _ => {
+                    eprintln!("MACHINERY: hand-built record header does not parse");
+                    std::process::exit(2);
+                }
+            }
+        }
+    }
+    let hashes: Vec<Hs> = hdrs.iter().map(|h| guard(|| one_hdr!(h, |a| hrec(a))).unwrap_or_default()).collect();
+    let okey: Vec<Vec<Vec<u8>>> = owners.iter().map(|l| l.iter().rev().map(|x| lc(x)).collect()).collect();
+    let mut rel = Rel::new(n);
+    for i in 0..n {
+        for j in 0..n {
+            let (a, b) = (&items[i].1, &items[j].1);
+            let case = || json!({"domain": dom, "items": [desc(i), desc(j)]});
+            let r = guard(|| {
+                let (eq, pc) = one_hdr!(&hdrs[i], |x| one_hdr!(&hdrs[j], |y| (x == y, x.partial_cmp(y).map(sgn))));
+                let ord = match (&hdrs[i], &hdrs[j]) {
+                    (Hdr::Flat(x), Hdr::Flat(y)) => Some(sgn(x.cmp(y))),
+                    (Hdr::Parsed(x), Hdr::Parsed(y)) => Some(sgn(x.cmp(y))),
+                    _ => None,
+                };
+                let req = match (&recs[i], &recs[j]) {
+                    (Some(x), Some(y)) => Some(x == y),
+                    _ => None,
+                };
+                (eq, pc, ord, req)
+            });
+            env.stats.eval();
+            if i != j {
+                env.stats.distinct(mix(16, items[i].0, items[j].0));
+            }
+            let (eq, pc, ord, req) = match r {
+                Ok(o) => o,
+                Err(e) => {
+                    env.viol(format!("C04|record-header|panic|{}", panic_class(&e)), e, case());
+                    continue;
+                }
+            };
+            env.say(|| format!("header[{}] ? header[{}]: eq {eq} partial_cmp {pc:?} cmp {ord:?} parsed-record eq {req:?}", items[i].0, items[j].0));
+            rel.eq[i * n + j] = eq;
+            rel.cmp[i * n + j] = pc.unwrap_or(2);
+            if pc.is_none() {
+                env.viol("C04|record-header|partial_cmp-is-none".into(), "partial_cmp returned None".into(), case());
+            }
+            if let Some(c) = ord {
+                if Some(c) != pc {
+                    env.viol("C04|record-header|partial_cmp-vs-cmp".into(), format!("partial_cmp {pc:?}, cmp {c}"), case());
+                }
+            }
+            // the same header, whatever the case of the owner and the representation, is equal
+            let same = okey[a.owner] == okey[b.owner] && (a.rtype, a.class, a.ttl, a.rdlen) == (b.rtype, b.class, b.ttl, b.rdlen);
+            if same && !eq {
+                env.viol("C04|record-header|same-header-unequal(case-or-representation)".into(), format!("{} vs {}", a.kind, b.kind), case());
+            }
+            if !same && eq {
+                env.stats.count("record-header:equal-although-fields-differ");
+            }
+            if let Some(req) = req {
+                // a parsed record is its header plus the RDATA octets
+                if req != same {
+                    env.viol(format!("C04|parsed-record|eq-vs-reference|{}", if same { "same-record-unequal" } else { "different-records-equal" }), format!("ParsedRecord == is {req}"), case());
+                }
+            }
+        }
+    }
+    let cls = |_: usize, _: usize| "-".to_string();
+    check_laws(env, &LawCfg { dom, ord_name: "cmp", with_eq: true, triples: true, desc: &desc, pair_class: &cls, hash_class: &cls, only_prefix: None, tag: dom, sig_dom: dom }, &rel, Some(&hashes));
+}
+
 //------------ main ----------------------------------------------------------------------
 
 fn main() {
@@ -2442,6 +2980,10 @@ fn main() {
                 dom_names(&env, depth, menu, chain3, true, 3, Some(&idx))
             }
             "relname" | "relname-flat" => dom_relnames(&env, 3, Some(&idx)),
+            "nsec3-owner-hash" => dom_owner_hash(&env, Some(&idx)),
+            "nsec3-salt" => dom_nsec3_salt(&env, Some(&idx)),
+            "timestamp" => dom_timestamps(&env),
+            "record-header" => dom_headers(&env, Some(&idx)),
             "rdata" => dom_rdata(&env, Some(&idx), false),
             "zrdata" => dom_rdata(&env, Some(&idx), true),
             "record" => dom_records(&env, Some(&idx)),
@@ -2468,6 +3010,12 @@ fn main() {
             phase("names-depth4", &mut || dom_names(&env, 4, 5, false, false, 4, None));
             phase("names-depth3-extended-menu", &mut || dom_names(&env, 3, 7, true, false, 10, None));
         }
+        phase("small-types", &mut || {
+            dom_owner_hash(&env, None);
+            dom_nsec3_salt(&env, None);
+            dom_timestamps(&env);
+            dom_headers(&env, None);
+        });
         phase("rdata", &mut || dom_rdata(&env, None, false));
         phase("zrdata", &mut || dom_rdata(&env, None, true));
         phase("records", &mut || dom_records(&env, None));
@@ -2493,6 +3041,7 @@ fn main() {
                 "embedded_names": "every embedded name of every compact value replaced by each of b., B., a.b., a.B. and the root (canonical name order opposite to wire order; case twins); all ordered pairs and triples within each (value, name) group",
                 "variable_length_tails": "for every compact value and every offset (not inside an embedded name) the RDATA from that offset on replaced by each of 28 tails of length 0..3 over {00,01,02,FF} (shorter-but-larger, shorter-and-smaller, strict prefixes); all ordered pairs and triples within each (value, offset) group",
                 "numeric_fields": "every window of 1/2/4/6 octets outside embedded names of every compact value overwritten with 0, 1, 2^(n-1)-1, 2^(n-1), 2^(n-1)+1, 2^n-1; all ordered pairs and triples within each (value, width, offset) group",
+                "coverage_round": "relative names and chains of chains; UncertainName chains, ParsedName::from(Name) and conversions (to_name, to_vec, to_bytes, to_cow, to_canonical_name, compose, compose_canonical, flatten_into, make_canonical, Borrow) checked against the reference wire; flat names as Name<Bytes>, Name<&[u8]>, Name<[u8]>; CanonicalOrd::canonical_lt/le/gt/ge wherever canonical_cmp is called; RecordHeader (48 headers x 3 representations) and ParsedRecord; OwnerHash, Nsec3Salt (31 strings x 2 octets types) and Timestamp (8 boundary values); Record::compose_canonical as second opinion within an RRset; parsed records flattened",
                 "owners": ["a.", "A.", "b.a."], "classes": [1, 3], "ttls": [1, 3600],
                 "rdata": if quick { "rgen compact values + name-case twins + letter-case twins + Unknown-variant twins; records over compact values; plus per type all ordered pairs of the rgen quick-menu product for the types with at most 1000 values" } else { "as quick, records also over the twins; rgen quick-menu product for every type (53 564 values)" },
             },
